@@ -175,6 +175,30 @@ def mrf_logpdf(c, kind, N, bc, order=1, two_d=False):
     c.eq('logpdf_is_documented_density_of_differences_of_shifted_variable', d.logpdf(x), spec)
 
 
+def mrf_rectangular(c, kind):
+    """a 2-D geometry that is not square (2 x 8 pixels): the prior is refused, or it is the density of the finite differences on THAT
+    grid (sum over rows of 8 and columns of 2) - never the density of a 4 x 4 image with the same number of pixels"""
+    R, C = 2, 8; n = R * C
+    geom = cuqi.geometry.Image2D((R, C))
+    try:
+        if kind == 'GMRF': d = GMRF(np.zeros(n), 2.0, bc_type='zero', geometry=geom)
+        elif kind == 'LMRF': d = LMRF(0, 0.5, bc_type='zero', geometry=geom)
+        else: d = CMRF(0, 0.5, bc_type='zero', geometry=geom)
+    except (NotImplementedError, ValueError):
+        c.holds('non_square_grid_refused', True); return
+    x = c.vec('x', n)
+    img = [[x[i * C + j] for j in range(C)] for i in range(R)]
+    diffs = []
+    for i in range(R): diffs += stencil1d(img[i], 'zero', 1)
+    for j in range(C): diffs += stencil1d([img[i][j] for i in range(R)], 'zero', 1)
+    Dx = np.array(diffs, dtype=object if c.sym else float)
+    zero = np.zeros(n)
+    if kind == 'GMRF': spec = -0.5 * 2.0 * np.sum(Dx ** 2)
+    elif kind == 'LMRF': spec = np.sum(-abs(Dx) / 0.5)
+    else: spec = np.sum(-np.log(Dx ** 2 + 0.25)) + len(Dx) * np.log(0.25)
+    c.eq('density_is_that_of_the_differences_on_the_rectangular_grid', d.logpdf(x) - d.logpdf(zero), spec, tol=1e-8)
+
+
 def mrf_gradient(c, kind, N, bc, order=1):
     d, loc, p, n = _mrf(c, kind, N, bc, order)
     x = c.vec('x', n)
@@ -219,6 +243,8 @@ def jobs(tier):
                 J.append(Job(f'GMRF.structure2D:order={order}:{bc}:N={N}x{N}', lambda c, o=order, N=N, bc=bc: gmrf_structure(c, o, N, bc, True), 'Pbox',
                              ['cuqi.distribution._gmrf:GMRF.__init__', 'cuqi.distribution._gmrf:GMRF.sqrtprec'], num=False))
                 J.append(Job(f'precision2D:order={order}:{bc}:N={N}x{N}', lambda c, o=order, N=N, bc=bc: precision(c, o, N, bc, True), 'Pbox', PO))
+    for kind in ('GMRF', 'LMRF', 'CMRF'):
+        J.append(Job(f'{kind}:non_square_2D_geometry', lambda c, k=kind: mrf_rectangular(c, k), 'Pbox', [f'cuqi.distribution._{kind.lower()}:{kind}.__init__'], num=True))
     for kind in ('GMRF', 'LMRF', 'CMRF'):
         mod = f'cuqi.distribution._{kind.lower()}'
         for bc in ('zero', 'periodic', 'neumann'):
